@@ -189,6 +189,16 @@ int cp_etrs_ver(size_t thres, const bn_t *td, const bn_t *y, size_t max,
 		ec_curve_get_ord(n);
 
 		flag = 1;
+		/* Trapdoors lie in [0, n - 1], evaluation points in [1, n - 1]. */
+		for (i = 0; i < max; i++) {
+			flag &= bn_sign(td[i]) == RLC_POS && bn_cmp(td[i], n) == RLC_LT;
+			flag &= bn_sign(y[i]) == RLC_POS && !bn_is_zero(y[i]) &&
+					bn_cmp(y[i], n) == RLC_LT;
+		}
+		for (i = 0; i < size; i++) {
+			flag &= bn_sign(s[i]->y) == RLC_POS && !bn_is_zero(s[i]->y) &&
+					bn_cmp(s[i]->y, n) == RLC_LT;
+		}
 		ec_set_infty(w[0]);
 		for (i = 0; i < d; i++) {
 			for (int j = 0; j < d; j++) {
